@@ -1,5 +1,6 @@
 import TinkVerif.Model.Hpke
 import TinkVerif.Prim.Ec
+import TinkVerif.Prim.EcP224
 import TinkVerif.Prim.Curve25519
 import TinkVerif.Prim.Keccak
 import Driver.Aead
@@ -139,6 +140,36 @@ def pointDec (c : Curve) (fmt : String) (b : Bytes) : Option Point :=
 def headerSize (c : Curve) (fmt : String) : Nat :=
   match fmt with | "C" => c.byteLen + 1 | "L" => 2 * c.byteLen | _ => 2 * c.byteLen + 1
 
+/-! ### hybrid/subtle driven directly (every curve `subtle.GetCurve` admits, P-224 included)
+
+`curveS?` / `pointDecG` are the P-224-capable counterparts of `curveOf?` / `pointDec`: compressed points
+are decompressed with the general square root of `TinkVerif.Prim.EcP224` (the P-224 prime is 1 mod 4). -/
+
+def curveS? : String → Option Curve
+  | "P224" => some p224
+  | "P256" => some p256
+  | "P384" => some p384
+  | "P521" => some p521
+  | _ => none
+
+def pointDecG (c : Curve) (fmt : String) (b : Bytes) : Option Point :=
+  match fmt with
+  | "L" => if b.length ≠ 2 * c.byteLen then none else c.pointDecodeG (ba (4 :: b))
+  | "C" => if b.length ≠ c.byteLen + 1 ∨ (b.head? ≠ some 2 ∧ b.head? ≠ some 3) then none else c.pointDecodeG (ba b)
+  | "U" => if b.length ≠ 2 * c.byteLen + 1 ∨ b.head? ≠ some 4 then none else c.pointDecodeG (ba b)
+  | _ => none
+
+/-- `ECIESHKDFRecipientKem.decapsulate`: PointDecode, ComputeSharedSecret, HKDF over kem ‖ x(d·P) -/
+def kemKeyG (c : Curve) (a : HashAlg) (fmt : String) (salt info : Bytes) (keyLen d : Nat) (kemBytes : Bytes) : Option Bytes :=
+  match pointDecG c fmt kemBytes with
+  | some (.affine qx qy) =>
+    match ecdh c d qx qy with
+    | some dh => eciesKey (hmacM a) a.digestLen kemBytes dh.toList salt info keyLen
+    | none => none
+  | _ => none
+
+def fixedTok (c : Curve) (x : Nat) : String := tokOfBytes (i2osp x c.byteLen).toList
+
 def handle (toks : List String) : Option String :=
   match toks with
   | ["hpkedec", kem, kdf, aead, v, id, skR, ct, info, aux] => do
@@ -200,6 +231,72 @@ def handle (toks : List String) : Option String :=
     -- X25519 half of the public key and the ML-KEM seed derived from a 32-byte X-Wing secret key
     let (seedM, skX) := xwingExpand (fun m n => (shake256 (ba m) n).toList) (← bytesOfTok? sk)
     pure s!"{tokOfBytes seedM} {tokOfBytes (x25519Base (ba skX)).toList}"
+  -- hybrid/subtle, all four NIST curves (see `curveS?`)
+  | ["sptdec", cv, fmt, enc] => do
+    -- subtle.PointDecode
+    let c ← curveS? cv
+    match pointDecG c fmt (← bytesOfTok? enc) with
+    | some (.affine x y) => pure s!"ok {fixedTok c x} {fixedTok c y}"
+    | _ => pure "reject"
+  | ["sptenc", cv, fmt, x, y] => do
+    -- subtle.PointEncode of the affine point (x, y), coordinates as big-endian integers of any length
+    let c ← curveS? cv
+    let x := Bytes.toNatBE (← bytesOfTok? x)
+    let y := Bytes.toNatBE (← bytesOfTok? y)
+    if fmt ≠ "U" ∧ fmt ≠ "C" ∧ fmt ≠ "L" then none
+    else if c.onCurve x y then pure s!"ok {tokOfBytes (pointEnc c fmt (.affine x y))}" else pure "reject"
+  | ["sdh", cv, d, x, y] => do
+    -- subtle.ComputeSharedSecret: x coordinate of d·(x, y); off-curve points and the point at infinity are errors
+    let c ← curveS? cv
+    let d := Bytes.toNatBE (← bytesOfTok? d)
+    let x := Bytes.toNatBE (← bytesOfTok? x)
+    let y := Bytes.toNatBE (← bytesOfTok? y)
+    pure (okR ((ecdh c d x y).map (·.toList)))
+  | ["spub", cv, d] => do
+    -- subtle.GetECPrivateKey: the public point d·G
+    let c ← curveS? cv
+    match c.baseMul (Bytes.toNatBE (← bytesOfTok? d)) with
+    | .affine x y => pure s!"ok {fixedTok c x} {fixedTok c y}"
+    | .infinity => pure "infinity"
+  | ["skem", cv, h, fmt, salt, d, kem, info, keyLen] => do
+    -- the symmetric key ECIESHKDFRecipientKem derives from the KEM bytes
+    let c ← curveS? cv
+    let a ← hashAlg? h
+    pure (okR (kemKeyG c a fmt (← bytesOfTok? salt) (← bytesOfTok? info) (← keyLen.toNat?)
+      (Bytes.toNatBE (← bytesOfTok? d)) (← bytesOfTok? kem)))
+  | "seciesdec" :: cv :: h :: fmt :: rest => do
+    let c ← curveS? cv
+    let a ← hashAlg? h
+    let (keyLen, _, demDec, rest) ← dem? rest
+    match rest with
+    | [salt, v, id, d, ct, info] =>
+      let pre := outputPrefix (← Variant.ofCode? v) (← id.toNat?)
+      let salt ← bytesOfTok? salt
+      let info ← bytesOfTok? info
+      let d := Bytes.toNatBE (← bytesOfTok? d)
+      pure (okR (fullOpen pre (eciesOpen (headerSize c fmt) (kemKeyG c a fmt salt info keyLen d) demDec) (← bytesOfTok? ct)))
+    | _ => none
+  | "seciesenc" :: cv :: h :: fmt :: rest => do
+    let c ← curveS? cv
+    let a ← hashAlg? h
+    let (keyLen, demEnc, _, rest) ← dem? rest
+    match rest with
+    | [salt, v, id, pk, eph, rnd, pt, info] =>
+      let pre := outputPrefix (← Variant.ofCode? v) (← id.toNat?)
+      let salt ← bytesOfTok? salt
+      let info ← bytesOfTok? info
+      let e := Bytes.toNatBE (← bytesOfTok? eph)
+      match pointDecG c "U" (← bytesOfTok? pk) with
+      | some (.affine qx qy) =>
+        match ecdh c e qx qy with
+        | some dh =>
+          let kemBytes := pointEnc c fmt (c.baseMul e)
+          match eciesKey (hmacM a) a.digestLen kemBytes dh.toList salt info keyLen with
+          | some key => pure s!"ok {tokOfBytes (pre ++ eciesSeal kemBytes (demEnc key (← bytesOfTok? rnd)) (← bytesOfTok? pt))}"
+          | none => pure "err"
+        | none => pure "err"
+      | _ => pure "err"
+    | _ => none
   | _ => none
 
 end Driver.Hy
